@@ -33,7 +33,7 @@ type c13Case struct {
 
 func genC13Gate(t *rapid.T) c13Case {
 	c := c13Case{Deferred: rapid.Bool().Draw(t, "deferred"), Bounded: rapid.IntRange(0, 3).Draw(t, "bounded") == 0}
-	ops := []string{"gset", "gset", "set", "advance", "advance", "advance", "cleanup", "cleanup", "release", "release"}
+	ops := []string{"gset", "gset", "set", "advance", "advance", "advance", "cleanup", "cleanup", "release", "release", "tick"}
 	if c.Deferred {
 		ops = append(ops, "prefill")
 	}
@@ -89,7 +89,7 @@ type c13Write struct {
 func runC13Gate(c c13Case) outcome {
 	var o outcome
 	var verr error
-	behindWheel, obligations, prefilled := 0, 0, false
+	behindWheel, obligations, prefilled, ticks := 0, 0, false, 0
 	func() {
 		defer func() {
 			if r := recover(); r != nil {
@@ -103,6 +103,7 @@ func runC13Gate(c c13Case) outcome {
 			var armed *c13Write // the next NowNano call belongs to this write
 			clock := &vh.ManualClock{}
 			clock.Set(1_000_000_000_000)
+			clock.TickCh = make(chan time.Time) // created inside the bubble: the periodic clean-up goroutine blocks on it durably
 			clock.Gate = func(now int64) {
 				mu.Lock()
 				w := armed
@@ -153,9 +154,46 @@ func runC13Gate(c c13Case) outcome {
 				for i := 0; i < 100000 && exec.RunOne(); i++ {
 				}
 			}
+			// the sweep obligation at clock T (after a maintenance run with nothing in flight)
+			sweepOracle := func(what string) {
+				T := clock.Now()
+				mu.Lock()
+				defer mu.Unlock()
+				for _, w := range writes {
+					if w.returnedAt < 0 || w.parked {
+						continue // in flight: outside the statement
+					}
+					deadline := w.sampled + w.ttl
+					if !w.reported && deadline+vh.Tick < T && w.returnedAt < T-vh.Tick {
+						verr = fmt.Errorf("%s at clock %d: key %d (ttl %d, clock sampled by its write %d, write returned at %d) expired at %d, more than one tick (2^30 ns) ago, but it has not been swept: no Expiration event, EstimatedSize()=%d",
+							what, T, w.key, w.ttl, w.sampled, w.returnedAt, deadline, cache.EstimatedSize())
+					}
+					if deadline+vh.Tick < T && w.returnedAt < T-vh.Tick {
+						obligations++
+					}
+				}
+			}
 			for i := range c.Actions {
 				a := &c.Actions[i]
 				switch a.Op {
+				case "tick":
+					// the clock's ticker fires: the cache's own goroutine runs the maintenance, nobody calls CleanUp
+					synctest.Wait()
+					mu.Lock()
+					inflight := false
+					for _, w := range writes {
+						if w.parked || (w.gated && w.returnedAt < 0) {
+							inflight = true
+						}
+					}
+					mu.Unlock()
+					clock.TickCh <- time.Time{}
+					synctest.Wait()
+					runQueued()
+					ticks++
+					if !inflight {
+						sweepOracle("periodic clean-up (clock tick)")
+					}
 				case "set":
 					w := newWrite(a.TTL, false)
 					w.sampled = clock.Now()
@@ -210,26 +248,7 @@ func runC13Gate(c c13Case) outcome {
 					runQueued()
 					cache.CleanUp()
 					runQueued()
-					T := clock.Now()
-					mu.Lock()
-					live := 0
-					for _, w := range writes {
-						if w.returnedAt < 0 || w.parked {
-							continue // in flight: outside the statement
-						}
-						if !w.reported {
-							live++
-						}
-						deadline := w.sampled + w.ttl
-						if !w.reported && deadline+vh.Tick < T && w.returnedAt < T-vh.Tick {
-							verr = fmt.Errorf("CleanUp at clock %d: key %d (ttl %d, clock sampled by its write %d, write returned at %d) expired at %d, more than one tick (2^30 ns) ago, but it has not been swept: no Expiration event, EstimatedSize()=%d",
-								T, w.key, w.ttl, w.sampled, w.returnedAt, deadline, cache.EstimatedSize())
-						}
-						if deadline+vh.Tick < T && w.returnedAt < T-vh.Tick {
-							obligations++
-						}
-					}
-					mu.Unlock()
+					sweepOracle("CleanUp")
 				}
 				synctest.Wait()
 				if verr != nil {
@@ -261,6 +280,9 @@ func runC13Gate(c c13Case) outcome {
 	if prefilled {
 		o.Classes = append(o.Classes, "write-buffer-full")
 	}
+	if ticks > 0 {
+		o.Classes = append(o.Classes, "periodic-clean-up-tick")
+	}
 	o.Sig = vh.Sig(fmt.Sprint(c))
 	return o
 }
@@ -270,7 +292,7 @@ func TestC13_ClockGate(t *testing.T) {
 	propMain(t, propSpec[c13Case]{
 		Prop: "C13", Test: "ClockGate",
 		Rule: "scripts in a testing/synctest bubble: 'gset' starts a Set whose first Clock.NowNano call is parked after fixing the value T0 it returns, the script then advances the clock (ns .. hours) and runs CleanUp (the timer wheel's time moves past T0+ttl), and 'release' lets the write continue, so its entry is scheduled behind the wheel's time; " +
-			"plain sets, TTLs from 1 ns to an hour, inline or queued executor, optionally a full write buffer (caller-runs maintenance); every write uses a fresh key; oracle at every CleanUp at clock T: each write that has returned before T - 2^30 ns and whose deadline (sampled clock + ttl) + 2^30 ns < T has had its Expiration event delivered; " +
+			"plain sets, TTLs from 1 ns to an hour, inline or queued executor, optionally a full write buffer (caller-runs maintenance); every write uses a fresh key; 'tick' fires the clock's ticker so that the cache's own periodic clean-up goroutine runs the maintenance (no CleanUp call by the script); oracle at every CleanUp / tick at clock T: each write that has returned before T - 2^30 ns and whose deadline (sampled clock + ttl) + 2^30 ns < T has had its Expiration event delivered; " +
 			"non-trivial = at least one write was released when the wheel time was already past its deadline and at least one obligation was checked",
 		Assumptions: []string{"the clock value a write uses is the one returned by its first NowNano call; writes still parked at a CleanUp are outside the statement ('no operation in flight')"},
 		Gen:         genC13Gate, Run: runC13Gate,
